@@ -2,13 +2,17 @@
 //! amiquip code on generated / enumerated / corpus cases and writes what it did as
 //! Coq terms (case files) for the model and the property oracle to judge.
 mod absframe;
+mod c02;
 mod c06;
 mod c10;
 mod c14;
 mod c15;
+mod c16;
 mod consts;
 mod core;
 mod coregen;
+mod l2;
+mod l2smoke;
 mod coqfmt;
 mod rng;
 mod wire;
@@ -71,10 +75,13 @@ fn main() {
     }
     match argv[1].as_str() {
         "consts" => consts::run(),
+        "l2smoke" => l2smoke::run(&a),
+        "c02" => c02::run(&a),
         "c06" => c06::run(&a),
         "c10" => c10::run(&a),
         "c14" => c14::run(&a),
         "c15" => c15::run(&a),
+        "c16" => c16::run(&a),
         "coremix" => coregen::run(&a, "CORE", "CoreMix", &["mix", "c07", "c03", "c04", "c05", "c08", "c09", "c11", "c13", "c20"]),
         "c03" => coregen::run(&a, "C03", "C03", &["c03"]),
         "c07" => coregen::run(&a, "C07", "C07", &["c07", "c07", "mix"]),
